@@ -19,8 +19,13 @@ pub struct Stats {
     pub outcomes: BTreeMap<String, u64>,
     pub counters: BTreeMap<String, u64>,
     pub nontrivial: Vec<u128>,
+    /// Kept violation details: at most `KEEP_PER_SIG` per signature (a rare signature can never be
+    /// crowded out by a frequent one); `viol_counts` has the true number per signature.
     pub viols: Vec<(String, Value)>,
+    pub viol_counts: BTreeMap<String, u64>,
 }
+
+const KEEP_PER_SIG: usize = 4;
 
 impl Stats {
     pub fn outcome(&mut self, k: &str) {
@@ -30,7 +35,9 @@ impl Stats {
         *self.counters.entry(k.to_string()).or_insert(0) += n;
     }
     pub fn viol(&mut self, sig: String, detail: Value) {
-        if self.viols.len() < 256 {
+        let n = self.viol_counts.entry(sig.clone()).or_insert(0);
+        *n += 1;
+        if (*n as usize) <= KEEP_PER_SIG {
             self.viols.push((sig, detail));
         }
     }
@@ -43,8 +50,11 @@ impl Stats {
             *self.counters.entry(k).or_insert(0) += v;
         }
         self.nontrivial.extend(o.nontrivial);
+        for (k, v) in o.viol_counts {
+            *self.viol_counts.entry(k).or_insert(0) += v;
+        }
         for v in o.viols {
-            if self.viols.len() < 100_000 {
+            if self.viols.iter().filter(|x| x.0 == v.0).count() < KEEP_PER_SIG {
                 self.viols.push(v);
             }
         }
@@ -52,11 +62,7 @@ impl Stats {
     }
     pub fn flush(self, r: &Report) {
         r.eval(self.evals);
-        let mut hist: BTreeMap<String, u64> = BTreeMap::new();
-        for (s, _) in &self.viols {
-            *hist.entry(s.clone()).or_insert(0) += 1;
-        }
-        for (s, n) in &hist {
+        for (s, n) in &self.viol_counts {
             r.counter(&format!("violation:{s}"), *n);
         }
         for (k, v) in &self.outcomes {
